@@ -2,6 +2,7 @@
 From Coq Require Import ZArith List Bool String Lia.
 Require Import Base.PyNum Base.Outcome Model.Values Model.Vocab Model.Types Model.Conv Model.Into Model.IO.
 Require Import Gen.GenScalars Gen.GenGates Gen.GenExcept Gen.GenIO.
+Require Import Lemmas.RoundTrip.
 Import ListNotations.
 Open Scope nat_scope.
 
@@ -70,7 +71,10 @@ Inductive norm_ty : ty -> Prop :=
 | nt_tuple es : Forall norm_ty es -> norm_ty (TTuple es)
 | nt_dict k v : norm_ty v -> norm_ty (TDict k v)
 | nt_union ms : Forall norm_ty ms -> norm_ty (TUnion ms)
-| nt_cond t c : norm_ty t -> norm_ty (TCond t c).
+| nt_cond t c : norm_ty t -> norm_ty (TCond t c)
+| nt_struct fs : Forall (fun x => norm_ty (snd x)) fs -> norm_ty (TStruct fs)
+| nt_class h fs : Forall (fun x => norm_ty (snd x)) fs -> norm_ty (TClass h fs)
+| nt_literal vals : Forall lit_scalar vals -> norm_ty (TLiteral vals).
 
 Lemma kind_norm_gate v :
   gate_sequence (kind_of (normalise v)) = gate_sequence (kind_of v) /\
@@ -92,10 +96,44 @@ Proof. intros H. induction l as [|x l IH]; simpl; [reflexivity|]. now rewrite H,
 Lemma scalar_norm s v : tc (TScalar s) (normalise v) = tc (TScalar s) v.
 Proof. destruct v; try reflexivity; destruct s; reflexivity. Qed.
 
+Lemma kind_norm_pane_gates v :
+  pane_seq_gate_try (kind_of (normalise v)) = pane_seq_gate_try (kind_of v) /\
+  pane_map_gate_try (kind_of (normalise v)) = pane_map_gate_try (kind_of v).
+Proof. destruct v; simpl; split; reflexivity. Qed.
+
+Lemma has_key_norm k kvs : has_key k (map (fun kv => (fst kv, normalise (snd kv))) kvs) = has_key k kvs.
+Proof. unfold has_key. induction kvs as [|[a b] r IH]; simpl; [reflexivity|]. now rewrite IH. Qed.
+
+Lemma lit_missing_norm {T} (fs : list (string * T)) kvs :
+  lit_missing fs (map (fun kv => (fst kv, normalise (snd kv))) kvs) = lit_missing fs kvs.
+Proof. unfold lit_missing. apply filter_ext. intros n. now rewrite has_key_norm. Qed.
+
+Lemma with_key_ext {T C} k (g g' : T -> C) (fs : list (string * T)) :
+  Forall (fun x => g (snd x) = g' (snd x)) fs -> with_key k g fs = with_key k g' fs.
+Proof. induction 1 as [|[n t] r E _ IH]; simpl; [reflexivity|]. simpl in E. now rewrite E, IH. Qed.
+
+Lemma with_field_ext {T C} k (g g' : fld -> T -> C) (fs : list (fld * T)) :
+  Forall (fun x => g (fst x) (snd x) = g' (fst x) (snd x)) fs -> with_field k g fs = with_field k g' fs.
+Proof. induction 1 as [|[f t] r E _ IH]; simpl; [reflexivity|]. simpl in E. now rewrite E, IH. Qed.
+
+Lemma lit_scalar_norm v l : lit_scalar l -> py_eqb (normalise v) l = py_eqb v l /\ (py_eqb v l = true -> normalise v = v).
+Proof. destruct l; simpl; try tauto; intros _; destruct v; simpl; split; try reflexivity; try discriminate. Qed.
+
+Lemma literal_norm vals v : Forall lit_scalar vals ->
+  existsb (py_eqb (normalise v)) vals = existsb (py_eqb v) vals /\ (existsb (py_eqb v) vals = true -> normalise v = v).
+Proof.
+  induction 1 as [|l r L _ [IH1 IH2]]; simpl; [split; [reflexivity|discriminate]|].
+  destruct (lit_scalar_norm v l L) as [E1 E2]. rewrite E1, IH1. split; [reflexivity|].
+  intros H. apply orb_prop in H. destruct H; auto.
+Qed.
+
+Lemma forall_mp {A} (P Q : A -> Prop) l : Forall (fun x => P x -> Q x) l -> Forall P l -> Forall Q l.
+Proof. induction 1 as [|x l H _ IH]; intros F; inversion F; subst; constructor; auto. Qed.
+
 Theorem norm_insensitive t : norm_ty t -> forall v, tc t (normalise v) = tc t v.
 Proof.
   induction t as [| |s|c e IHe|es IHes|kt vt IHk IHv|fs IHfs|ms IHms|vals|n members|h fs IHfs|inner c IHi|tag lay vs IHvs] using ty_ind';
-    intros N v; inversion N as [| |c' e' Ne|es' Nes|k' v' Nv|ms' Nms|t' c' Ni]; subst.
+    intros N v; inversion N as [| |c' e' Ne|es' Nes|k' v' Nv|ms' Nms|t' c' Ni|fs' Nfs|h' fs' Nfs|vals' Nvals]; subst.
   - destruct v; reflexivity.
   - apply scalar_norm.
   - specialize (IHe Ne). simpl. destruct (kind_norm_gate v) as [-> _].
@@ -108,10 +146,40 @@ Proof.
     now rewrite E.
   - specialize (IHv Nv). simpl. destruct (kind_norm_gate v) as [_ ->]. rewrite pairs_norm, map_out_map. simpl.
     erewrite map_out_ext; [reflexivity|]. intros kv. simpl. now rewrite IHv.
+  - (* struct literal types *)
+    simpl. destruct (kind_norm_gate v) as [_ ->]. rewrite pairs_norm, lit_missing_norm.
+    assert (E : forall kvs, lit_try_loop tc fs (map (fun kv => (fst kv, normalise (snd kv))) kvs) = lit_try_loop tc fs kvs).
+    { induction kvs as [|[k x] r IH]; simpl; [reflexivity|].
+      rewrite (with_key_ext k (fun t => tc t (normalise x)) (fun t => tc t x) fs).
+      - now rewrite IH.
+      - eapply Forall_impl; [|exact (forall_mp _ _ _ IHfs Nfs)]. intros [n t] Ht. simpl in *. now rewrite Ht. }
+    now rewrite E.
   - simpl. assert (E : forall l, Forall (fun t => norm_ty t -> forall v, tc t (normalise v) = tc t v) l -> Forall norm_ty l ->
                        first_ok (fun m => tc m (normalise v)) l = first_ok (fun m => tc m v) l).
     { induction l as [|m l IH]; intros F1 F2; simpl; [reflexivity|]. inversion F1 as [|? ? Pm Pl]; subst. inversion F2 as [|? ? Nm Nl]; subst.
       rewrite (Pm Nm v), IH; auto. }
     now apply E.
+  - (* literals *)
+    simpl. destruct (literal_norm vals v Nvals) as [E1 E2]. rewrite E1.
+    destruct (existsb (py_eqb v) vals) eqn:E; [|reflexivity]. now rewrite (E2 eq_refl).
+  - (* dataclasses *)
+    assert (F : Forall (fun x : fld * ty => forall y, tc (snd x) (normalise y) = tc (snd x) y) fs).
+    { exact (forall_mp _ _ _ IHfs Nfs). }
+    simpl. destruct (kind_norm_pane_gates v) as [-> ->]. rewrite items_norm, pairs_norm, map_length.
+    assert (ET : forall xs, tuple_try_loop tc fs (map normalise xs) = tuple_try_loop tc fs xs).
+    { clear -F. induction F as [|[f t] l Ht _ IHl]; intros xs; [destruct xs; reflexivity|].
+      destruct xs as [|x xs]; simpl; [reflexivity|]. simpl in Ht. rewrite Ht.
+      destruct (f_init f).
+      - now rewrite IHl.
+      - exact (IHl (x :: xs)). }
+    assert (ES : forall kvs vals, struct_try_loop tc fs (c_allow_extra h) (map (fun kv => (fst kv, normalise (snd kv))) kvs) vals
+                                  = struct_try_loop tc fs (c_allow_extra h) kvs vals).
+    { induction kvs as [|[k x] r IH]; intros vals; simpl; [reflexivity|].
+      match goal with |- context [with_field k ?g fs] =>
+        rewrite (with_field_ext k g (fun f t => if has_value (f_name f) vals then Reject
+                   else match tc t x with Ok y => Ok (vals ++ [(f_name f, y)])%list | Reject => Reject | Escape e => Escape e end) fs) end.
+      - destruct (with_field k _ fs) as [[vals'| |e]|]; try reflexivity; [apply IH|]. destruct (c_allow_extra h); [apply IH|reflexivity].
+      - clear -F. induction F as [|[f t] l Ht _ IHl]; constructor; auto. simpl in *. now rewrite Ht. }
+    now rewrite ET, ES.
   - specialize (IHi Ni). simpl. now rewrite IHi.
 Qed.
